@@ -18,6 +18,7 @@
 #include <cstring>
 #include <cwchar>
 #include <cwctype>
+#include <optional>
 #include <type_traits>
 
 using proto::Line;
@@ -38,6 +39,18 @@ static auto rel(void const* r, C const* base) -> std::string
 }
 
 static auto out(std::string a, std::string b) -> std::string { return a + "\t" + b; }
+
+// The search functions have two overloads each (pointer to const / pointer to non-const; `memchr(void*)` has a
+// body of its own).  Both run on every line; the non-const one must return the same offset and have the return
+// type ISO C++ gives it for the argument types (C*, C const*) -- otherwise the result is printed as
+// `<const result>!mut=<non-const result>` resp. `...!sig`.
+template <typename Want, typename Got>
+static auto both(std::string c, std::string m) -> std::string
+{
+    if (c != m) c += "!mut=" + m;
+    if constexpr (!std::is_same_v<Want, Got>) c += "!sig";
+    return c;
+}
 
 #define IS_CHAR(C) (std::is_same_v<C, char>)
 
@@ -75,29 +88,60 @@ static std::string step_t(Line const& l)
         }
         return out(proto::fmt_sign(re), proto::fmt_sign(rs));
     }
+    if (op == "strrchr0") {
+        // tetl extension: a null `str` gives a null result (ISO C: undefined, so glibc is not called)
+        int ch       = static_cast<int>(l.i("ch"));
+        C const* pc  = nullptr;
+        C* pm        = nullptr;
+        void const* re = nullptr;
+        void const* rm = nullptr;
+        if constexpr (narrow) { re = etl::strrchr(pc, ch); rm = etl::strrchr(pm, ch); }
+        else { re = etl::wcsrchr(pc, ch); rm = etl::wcsrchr(pm, ch); }
+        auto r = std::string(re == nullptr ? "null" : "nonnull");
+        if (rm != re) r += "!mut=nonnull";
+        return out(r, "*");
+    }
     if (op == "strchr" || op == "strrchr" || op == "memchr") {
         proto::heap_buf<C> s(l.list("s"));
         C const* p = s.p + l.i("off");
+        C* pm      = s.p + l.i("off");
         int ch     = static_cast<int>(l.i("ch"));
         void const* re = nullptr;
         void const* rs = nullptr;
+        void* rm       = nullptr;
+        std::string r;
         if (op == "strchr") {
-            if constexpr (narrow) { re = etl::strchr(p, ch); rs = std::strchr(p, ch); }
-            else { re = etl::wcschr(p, ch); rs = std::wcschr(p, static_cast<wchar_t>(ch)); }
+            if constexpr (narrow) { re = etl::strchr(p, ch); rm = etl::strchr(pm, ch); rs = std::strchr(p, ch); }
+            else { re = etl::wcschr(p, ch); rm = etl::wcschr(pm, ch); rs = std::wcschr(p, static_cast<wchar_t>(ch)); }
+            if constexpr (narrow) r = both<C*, decltype(etl::strchr(pm, ch))>(rel<C>(re, p), rel<C>(rm, p));
+            else r = both<C*, decltype(etl::wcschr(pm, ch))>(rel<C>(re, p), rel<C>(rm, p));
         } else if (op == "strrchr") {
-            if constexpr (narrow) { re = etl::strrchr(p, ch); rs = std::strrchr(p, ch); }
-            else { re = etl::wcsrchr(p, ch); rs = std::wcsrchr(p, static_cast<wchar_t>(ch)); }
+            if constexpr (narrow) { re = etl::strrchr(p, ch); rm = etl::strrchr(pm, ch); rs = std::strrchr(p, ch); }
+            else { re = etl::wcsrchr(p, ch); rm = etl::wcsrchr(pm, ch); rs = std::wcsrchr(p, static_cast<wchar_t>(ch)); }
+            if constexpr (narrow) r = both<C*, decltype(etl::strrchr(pm, ch))>(rel<C>(re, p), rel<C>(rm, p));
+            else r = both<C*, decltype(etl::wcsrchr(pm, ch))>(rel<C>(re, p), rel<C>(rm, p));
         } else {
             auto n = static_cast<std::size_t>(l.i("n"));
-            if constexpr (narrow) { re = etl::memchr(static_cast<void const*>(p), ch, n); rs = std::memchr(p, ch, n); }
-            else { re = etl::wmemchr(p, static_cast<wchar_t>(ch), n); rs = std::wmemchr(p, static_cast<wchar_t>(ch), n); }
+            if constexpr (narrow) {
+                re = etl::memchr(static_cast<void const*>(p), ch, n);
+                rm = etl::memchr(static_cast<void*>(pm), ch, n);
+                rs = std::memchr(p, ch, n);
+                r  = both<void*, decltype(etl::memchr(static_cast<void*>(pm), ch, n))>(rel<C>(re, p), rel<C>(rm, p));
+            } else {
+                auto wc = static_cast<wchar_t>(ch);
+                re = etl::wmemchr(p, wc, n);
+                rm = etl::wmemchr(pm, wc, n);
+                rs = std::wmemchr(p, wc, n);
+                r  = both<C*, decltype(etl::wmemchr(pm, wc, n))>(rel<C>(re, p), rel<C>(rm, p));
+            }
         }
-        return out(rel<C>(re, p), rel<C>(rs, p));
+        return out(r, rel<C>(rs, p));
     }
     if (op == "strspn" || op == "strcspn" || op == "strpbrk" || op == "strstr") {
         proto::heap_buf<C> s(l.list("s")), t(l.list("t"));
         C const* p = s.p + l.i("off");
         C const* q = t.p + l.i("toff");
+        C* pm      = s.p + l.i("off");
         if (op == "strspn" || op == "strcspn") {
             std::size_t re = 0, rs = 0;
             if (op == "strspn") {
@@ -109,16 +153,23 @@ static std::string step_t(Line const& l)
             }
             return out(std::to_string(re), std::to_string(rs));
         }
+        // the non-const overload is called like the ISO C++ one: (C*, C const*)
         void const* re = nullptr;
         void const* rs = nullptr;
+        void const* rm = nullptr;
+        std::string r;
         if (op == "strpbrk") {
-            if constexpr (narrow) { re = etl::strpbrk(p, q); rs = std::strpbrk(p, q); }
-            else { re = etl::wcspbrk(p, q); rs = std::wcspbrk(p, q); }
+            if constexpr (narrow) { re = etl::strpbrk(p, q); rm = etl::strpbrk(pm, q); rs = std::strpbrk(p, q); }
+            else { re = etl::wcspbrk(p, q); rm = etl::wcspbrk(pm, q); rs = std::wcspbrk(p, q); }
+            if constexpr (narrow) r = both<C*, decltype(etl::strpbrk(pm, q))>(rel<C>(re, p), rel<C>(rm, p));
+            else r = both<C*, decltype(etl::wcspbrk(pm, q))>(rel<C>(re, p), rel<C>(rm, p));
         } else {
-            if constexpr (narrow) { re = etl::strstr(p, q); rs = std::strstr(p, q); }
-            else { re = etl::wcsstr(p, q); rs = std::wcsstr(p, q); }
+            if constexpr (narrow) { re = etl::strstr(p, q); rm = etl::strstr(pm, q); rs = std::strstr(p, q); }
+            else { re = etl::wcsstr(p, q); rm = etl::wcsstr(pm, q); rs = std::wcsstr(p, q); }
+            if constexpr (narrow) r = both<C*, decltype(etl::strstr(pm, q))>(rel<C>(re, p), rel<C>(rm, p));
+            else r = both<C*, decltype(etl::wcsstr(pm, q))>(rel<C>(re, p), rel<C>(rm, p));
         }
-        return out(rel<C>(re, p), rel<C>(rs, p));
+        return out(r, rel<C>(rs, p));
     }
     if (op == "strcpy" || op == "strncpy" || op == "strcat" || op == "strncat" || op == "memcpy") {
         proto::heap_buf<C> d1(l.list("dst")), d2(l.list("dst")), src(l.list("src"));
@@ -167,6 +218,37 @@ static std::string step_t(Line const& l)
         void* rs = nullptr;
         if constexpr (narrow) { re = etl::memmove(b1.p + d, b1.p + s, n); rs = std::memmove(b2.p + d, b2.p + s, n); }
         else { re = etl::wmemmove(b1.p + d, b1.p + s, n); rs = std::wmemmove(b2.p + d, b2.p + s, n); }
+        return out(rel<C>(re, b1.p + d) + ":" + units(b1), rel<C>(rs, b2.p + d) + ":" + units(b2));
+    }
+    if (op == "memmove2") {
+        // source and destination are two different allocations: `ps < pd` then compares unrelated pointers, and
+        // whichever direction is taken the result must be that of memcpy.  `first=src|dst` says which of the two
+        // is allocated first, so that both address orders occur (chunks of one size class are handed out in sequence).
+        bool src_first = l.has("first") && l.str("first") == "src";
+        std::optional<proto::heap_buf<C>> src, d1;
+        if (src_first) { src.emplace(l.list("src")); d1.emplace(l.list("dst")); }
+        else { d1.emplace(l.list("dst")); src.emplace(l.list("src")); }
+        proto::heap_buf<C> d2(l.list("dst"));
+        C* p1      = d1->p + l.i("doff");
+        C* p2      = d2.p + l.i("doff");
+        C const* s = src->p + l.i("soff");
+        auto n     = static_cast<std::size_t>(l.i("n"));
+        void* re   = nullptr;
+        void* rs   = nullptr;
+        if constexpr (narrow) { re = etl::memmove(p1, s, n); rs = std::memmove(p2, s, n); }
+        else { re = etl::wmemmove(p1, s, n); rs = std::wmemmove(p2, s, n); }
+        return out(rel<C>(re, p1) + ":" + units(*d1), rel<C>(rs, p2) + ":" + units(d2));
+    }
+    if (op == "memcpy1") {
+        // memcpy between two disjoint extents of ONE allocation (either order)
+        proto::heap_buf<C> b1(l.list("buf")), b2(l.list("buf"));
+        auto d   = l.i("doff");
+        auto s   = l.i("soff");
+        auto n   = static_cast<std::size_t>(l.i("n"));
+        void* re = nullptr;
+        void* rs = nullptr;
+        if constexpr (narrow) { re = etl::memcpy(b1.p + d, b1.p + s, n); rs = std::memcpy(b2.p + d, b2.p + s, n); }
+        else { re = etl::wmemcpy(b1.p + d, b1.p + s, n); rs = std::wmemcpy(b2.p + d, b2.p + s, n); }
         return out(rel<C>(re, b1.p + d) + ":" + units(b1), rel<C>(rs, b2.p + d) + ":" + units(b2));
     }
     return "bad-op\tbad-op";
@@ -220,8 +302,18 @@ static wctype_entry const wctype_tbl[] = {
 
 static std::string step(Line const& l)
 {
-    if (l.op == "ctype") {
-        auto const& f = l.str("f");
+    auto is_ctype = [&](std::string const& name) {
+        for (auto const& e : ctype_tbl) if (name == e.name) return true;
+        return false;
+    };
+    auto is_wctype = [&](std::string const& name) {
+        if (name == "towlower" || name == "towupper") return true;
+        for (auto const& e : wctype_tbl) if (name == e.name) return true;
+        return false;
+    };
+    // a <cctype>/<cwctype> line is `<function> c=<arg>` (or, in older witness lines, `ctype f=<function> c=<arg>`)
+    if (l.op == "ctype" || is_ctype(l.op)) {
+        std::string f = l.op == "ctype" ? l.str("f") : l.op;
         int c         = static_cast<int>(l.i("c"));
         for (auto const& e : ctype_tbl) {
             if (f == e.name) {
@@ -232,8 +324,8 @@ static std::string step(Line const& l)
         }
         return "bad-op\tbad-op";
     }
-    if (l.op == "wctype") {
-        auto const& f = l.str("f");
+    if (l.op == "wctype" || is_wctype(l.op)) {
+        std::string f = l.op == "wctype" ? l.str("f") : l.op;
         auto c        = static_cast<std::wint_t>(static_cast<unsigned long long>(l.i("c")));
         if (f == "towlower") return out(std::to_string(etl::towlower(c)), std::to_string(std::towlower(c)));
         if (f == "towupper") return out(std::to_string(etl::towupper(c)), std::to_string(std::towupper(c)));
